@@ -164,9 +164,20 @@ def run(R):
                                           f"lock left={lock}, exit={rc2}"), "command": what, "inject": inj, "at": ev.raw[:200],
                                           "diff_vs_complete": repr(cli.diff_snap(after, done))[:800], "tree": cli.tree_json(tree),
                                           "search": search, "replace": replace})
+                        elif complete and rc2 == 0:
+                            # The handler runs on the ctrlc crate's own thread: a signal that lands on one of the last calls may not
+                            # have set the flag when the main thread takes its final look, and the command ends as if it had already
+                            # finished - the property's "(or 0 if it had already finished)". Scheduling decides (seen under load
+                            # only); counted, and reported only if it becomes the rule (see below).
+                            stats["complete_exit0_after_delivery"] = stats.get("complete_exit0_after_delivery", 0) + 1
                         else:
                             dis.append({"why": "outcome allowed by the property but not the one the model predicts (complete, exit 130)",
                                         "command": what, "inject": inj, "exit": rc2, "complete": complete, "nothing": nothing})
+                    stats["delivered"] = stats.get("delivered", 0) + 1
+    if stats.get("delivered", 0) >= 10 and stats.get("complete_exit0_after_delivery", 0) * 4 > stats["delivered"]:
+        dis.append({"why": "more than a quarter of the delivered signals ended in 'complete, exit 0': the model's exit status 130 for an "
+                           "interrupted but completed command no longer describes the program",
+                    "delivered": stats["delivered"], "exit0": stats["complete_exit0_after_delivery"]})
     prompt_case(R, fails, stats)
     R.coverage["input_distribution"] = stats
     R.disagreements = len(dis)
